@@ -324,8 +324,9 @@ bool readFlag(std::istream &os){
         os >> flag;
         return (flag != 0);
     }else{
-        char cflag;
+        char cflag = 'n';
         os.read(&cflag, sizeof(char));
+        if (os.fail()) throw std::runtime_error("ERROR: unexpected end of binary input, the file is truncated or corrupt");
         return (cflag == 'y');
     }
 }
@@ -361,6 +362,7 @@ void readVector(std::istream &is, std::vector<VecType> &x){
         for(auto &i : x) is >> i;
     }else{
         is.read((char*) x.data(), x.size() * sizeof(VecType));
+        if (is.fail()) throw std::runtime_error("ERROR: unexpected end of binary input, the file is truncated or corrupt");
     }
 }
 
@@ -391,11 +393,12 @@ void writeNumbers(std::ostream &os, Vals... vals){
  */
 template<typename iomode, typename Val>
 Val readNumber(std::istream &is){
-    Val v;
+    Val v = Val();
     if (std::is_same<iomode, mode_ascii_type>::value){
         is >> v;
     }else{
         is.read((char*) &v, sizeof(Val));
+        if (is.fail()) throw std::runtime_error("ERROR: unexpected end of binary input, the file is truncated or corrupt");
     }
     return v;
 }
